@@ -31,9 +31,9 @@ def parse_dot(text):
         rows = [(int(a), _html.unescape(re.sub(r"</?[BI]>", "", b))) for a, b in re.findall(r'>(\d+)\. (.*?)</TD>', m.group(3))]
         comments = [_html.unescape(c) for c in re.findall(r"// ([^<]*)", m.group(3))]
         nodes[int(m.group(1))] = {"color": m.group(2), "ports": [a for a, _ in rows], "rows": rows, "comments": comments}
-    edges = sorted(set((int(a), int(b)) for a, b in re.findall(r"(\d+):s -> (\d+):\d+:n", text)))
+    edges = sorted(set((int(a), int(b)) for a, b in re.findall(r"(?<![\w])(\d+):s -> (\d+):\d+:n", text)))
     boxes = re.findall(r"^(x\d+_\w+)\[label=", text, re.M)
-    box_edges = re.findall(r"(\d+):s -> (x\d+_\w+):n", text) + re.findall(r"(x\d+_\w+):s -> (\d+):\d+:n", text)
+    box_edges = re.findall(r"(?<![\w])(\d+):s -> (x\d+_\w+):n", text) + re.findall(r"(x\d+_\w+):s -> (\d+):\d+:n", text)
     return {"nodes": nodes, "edges": edges, "boxes": boxes, "box_edges": box_edges}
 
 
